@@ -9,7 +9,9 @@ package c13
 import (
 	"context"
 	"database/sql/driver"
+	"encoding/json"
 	"fmt"
+	"os"
 	"math/rand"
 	"reflect"
 	"strings"
@@ -187,6 +189,9 @@ func showStruct(v interface{}) string {
 
 // derefAll renders pointers inside a struct by value for witnesses.
 func derefAll(v reflect.Value) interface{} {
+	if !v.IsValid() {
+		return nil
+	}
 	for v.Kind() == reflect.Ptr {
 		if v.IsNil() {
 			return nil
@@ -228,6 +233,29 @@ type caseCtx struct {
 	x     reflect.Value // *T
 	vals  []interface{}
 	names []string
+}
+
+// violate reports a violation and keeps a histogram of violation kinds in the
+// evidence counters (replay files are only written for the first few).
+func (c *caseCtx) violate(class string, w map[string]interface{}) {
+	key := fmt.Sprint(w["what"])
+	for _, k := range []string{"profile", "column", "stage", "filter_value_kinds"} {
+		if v, ok := w[k]; ok {
+			key += "|" + fmt.Sprint(v)
+		}
+	}
+	if class != "" {
+		key = "[" + class + "] " + key
+	}
+	c.run.Count("violation_kind:"+c.ti.name+":"+key, 1)
+	if path := os.Getenv("C13_DUMP"); path != "" { // development aid: every witness, one JSON line each
+		if fh, err := os.OpenFile(path, os.O_APPEND|os.O_CREATE|os.O_WRONLY, 0o644); err == nil {
+			b, _ := json.Marshal(map[string]interface{}{"case": c.i, "class": class, "witness": w})
+			fh.Write(append(b, '\n'))
+			fh.Close()
+		}
+	}
+	c.run.Violation(c.i, class, w)
 }
 
 func (c *caseCtx) wit(extra map[string]interface{}) map[string]interface{} {
@@ -303,20 +331,20 @@ func checkCase(run *vlib.Run, z *zoo, env *env, i int) {
 	var vals []interface{}
 	var uerr error
 	if p := safely(func() { vals, uerr = z.schema.UnbuildStruct(ti.name, x.Interface()) }); p != nil {
-		run.Violation(i, "", c.wit(map[string]interface{}{"what": "UnbuildStruct panicked", "panic": fmt.Sprint(p)}))
+		c.violate("", c.wit(map[string]interface{}{"what": "UnbuildStruct panicked", "panic": fmt.Sprint(p)}))
 		return
 	}
 	if uerr != nil {
-		run.Violation(i, "", c.wit(map[string]interface{}{"what": "UnbuildStruct failed on a generated value", "err": uerr.Error()}))
+		c.violate("", c.wit(map[string]interface{}{"what": "UnbuildStruct failed on a generated value", "err": uerr.Error()}))
 		return
 	}
 	if len(vals) != len(ti.specs) {
-		run.Violation(i, "", c.wit(map[string]interface{}{"what": "UnbuildStruct returned wrong number of values", "n": len(vals)}))
+		c.violate("", c.wit(map[string]interface{}{"what": "UnbuildStruct returned wrong number of values", "n": len(vals)}))
 		return
 	}
 	c.vals = vals
 	if !reflect.DeepEqual(x.Interface(), xRef.Interface()) {
-		run.Violation(i, "", c.wit(map[string]interface{}{"what": "UnbuildStruct modified its argument", "before": showStruct(xRef.Interface())}))
+		c.violate("", c.wit(map[string]interface{}{"what": "UnbuildStruct modified its argument", "before": showStruct(xRef.Interface())}))
 	}
 	for k, v := range vals {
 		if !driver.IsValue(v) {
@@ -370,7 +398,7 @@ func checkCase(run *vlib.Run, z *zoo, env *env, i int) {
 	c.checkFilters(choices)
 
 	if !reflect.DeepEqual(x.Interface(), xRef.Interface()) {
-		run.Violation(i, "", c.wit(map[string]interface{}{"what": "the row was modified by encoding/testing", "before": showStruct(xRef.Interface())}))
+		c.violate("", c.wit(map[string]interface{}{"what": "the row was modified by encoding/testing", "before": showStruct(xRef.Interface())}))
 	}
 	if run.WantSample() && nontrivial {
 		run.Sample(c.wit(map[string]interface{}{"choices": fmt.Sprint(choices)}))
@@ -383,21 +411,21 @@ func (c *caseCtx) decodeAndCompare(p profile, via string, row []driver.Value, ch
 	var y interface{}
 	var err error
 	if pn := safely(func() { y, err = dec() }); pn != nil {
-		c.run.Violation(c.i, "", c.wit(map[string]interface{}{"what": via + " panicked", "profile": p.String(), "source_row": showRow(c.names, row), "panic": fmt.Sprint(pn)}))
+		c.violate("", c.wit(map[string]interface{}{"what": via + " panicked", "profile": p.String(), "source_row": showRow(c.names, row), "panic": fmt.Sprint(pn)}))
 		return
 	}
 	if err != nil {
-		c.run.Violation(c.i, classifyDecodeError(c, row, err), c.wit(map[string]interface{}{"what": via + " failed to decode a form the source produces", "profile": p.String(),
+		c.violate(classifyDecodeError(c, row, err), c.wit(map[string]interface{}{"what": via + " failed to decode a form the source produces", "profile": p.String(),
 			"source_row": showRow(c.names, row), "choices": fmt.Sprint(choices), "err": err.Error()}))
 		return
 	}
 	yv := reflect.ValueOf(y)
 	if yv.Kind() != reflect.Ptr || yv.IsNil() || yv.Elem().Type() != c.ti.typ {
-		c.run.Violation(c.i, "", c.wit(map[string]interface{}{"what": via + " returned an unexpected type", "profile": p.String(), "got": fmt.Sprintf("%T", y)}))
+		c.violate("", c.wit(map[string]interface{}{"what": via + " returned an unexpected type", "profile": p.String(), "got": fmt.Sprintf("%T", y)}))
 		return
 	}
 	if col := c.ti.equal(c.x.Elem(), yv.Elem(), p == pBinlog); col != "" {
-		c.run.Violation(c.i, "", c.wit(map[string]interface{}{"what": via + ": decoded struct differs from the original", "profile": p.String(), "column": col,
+		c.violate("", c.wit(map[string]interface{}{"what": via + ": decoded struct differs from the original", "profile": p.String(), "column": col,
 			"source_row": showRow(c.names, row), "choices": fmt.Sprint(choices), "got": showStruct(y)}))
 	}
 }
@@ -429,11 +457,11 @@ func (c *caseCtx) checkTester() {
 				ok = t.Test(c.x.Interface())
 			}
 		}); pn != nil {
-			c.run.Violation(c.i, "", c.wit(map[string]interface{}{"what": "MakeTester/Test panicked on a filter made from the row's own columns", "filter": name, "panic": fmt.Sprint(pn)}))
+			c.violate("", c.wit(map[string]interface{}{"what": "MakeTester/Test panicked on a filter made from the row's own columns", "filter": name, "panic": fmt.Sprint(pn)}))
 			continue
 		}
 		if terr != nil {
-			c.run.Violation(c.i, "", c.wit(map[string]interface{}{"what": "MakeTester rejected a filter made from the row's own columns", "filter": name, "err": terr.Error()}))
+			c.violate("", c.wit(map[string]interface{}{"what": "MakeTester rejected a filter made from the row's own columns", "filter": name, "err": terr.Error()}))
 			continue
 		}
 		c.run.Count("tester_reflexive_checked", 1)
@@ -446,7 +474,7 @@ func (c *caseCtx) checkTester() {
 					bad = append(bad, col)
 				}
 			}
-			c.run.Violation(c.i, "", c.wit(map[string]interface{}{"what": "a filter made from the row's own column values does not match the row", "filter": name, "columns": bad}))
+			c.violate("", c.wit(map[string]interface{}{"what": "a filter made from the row's own column values does not match the row", "filter": name, "columns": bad}))
 		}
 	}
 }
